@@ -13,7 +13,7 @@ git -C /repo worktree add -q --detach "$WT" HEAD || exit 2
 trap 'git -C /repo worktree remove --force "$WT" >/dev/null 2>&1; rm -rf /tmp/vd/$ID-$$' EXIT
 git -C "$WT" apply "/verif/seeded/$ID/patch.diff" || { echo "$ID: patch does not apply"; exit 2; }
 for P in "${PROPS[@]}"; do
-  OUT=$(VERIF_REPO="$WT" VERIF_OUT="/tmp/vd/$ID-$$" /verif/check "$P" "$TIER" 2>&1); rc=$?
+  OUT=$(VERIF_REPO="$WT" VERIF_OUT="/tmp/vd/$ID-$$" timeout 900 /verif/check "$P" "$TIER" 2>&1); rc=$?
   if [ $rc -eq 1 ] && echo "$OUT" | grep -q "^VIOLATION property=$P"; then
     echo "$ID vs $P: DETECTED  $(echo "$OUT" | grep -m1 'signature:' | cut -c1-150)"
   else
